@@ -400,7 +400,7 @@ func runProgram(req *fnv1.RunFunctionRequest) *fnv1.RunFunctionResponse {
 	case "drop":
 		c = nil
 	}
-	if p.Req == "count" && count < p.N {
+	if (p.Req == "count" || p.Req == "flip") && count < p.N {
 		set("n", strconv.Itoa(count+1))
 	}
 	rsp.Context = c
@@ -436,6 +436,8 @@ func runProgram(req *fnv1.RunFunctionRequest) *fnv1.RunFunctionResponse {
 		} else {
 			sel["k1"] = byLabel("g+1")
 		}
+	case "flip":
+		sel["k1"] = byName("x" + strconv.Itoa((count+1)%2))
 	case "count":
 		n := count
 		if n > p.N {
